@@ -312,4 +312,49 @@ theorem execAll_map_err_last {ct : ConvTable} {fault : Option Nat} {α : Type} (
     · rename_i ra heq
       exact ih ra r' e h
 
+/-! ## which statements a run has issued -/
+
+theorem execAll_cons_trace {ct : ConvTable} {fault : Option Nat} (rest : List Stmt) : ∀ (r : Run) (s : Stmt),
+    ∃ k, (execAll ct fault r (s :: rest)).1.trace = r.trace ++ s :: rest.take k := by
+  induction rest with
+  | nil =>
+    intro r s
+    refine ⟨0, ?_⟩
+    rw [execAll_single, step_trace]; simp
+  | cons s2 rest2 ih =>
+    intro r s
+    simp only [execAll]
+    cases hst : step ct fault r s with
+    | mk ra ea =>
+      have ht : ra.trace = r.trace ++ [s] := by
+        have := step_trace ct fault r s; rw [hst] at this; exact this
+      cases ea with
+      | some e => exact ⟨0, by simp [ht]⟩
+      | none =>
+        obtain ⟨k, hk⟩ := ih ra s2
+        simp only [execAll] at hk
+        exact ⟨k + 1, by simp only; rw [hk, ht]; simp⟩
+
+theorem execAll_trace_take {ct : ConvTable} {fault : Option Nat} (l : List Stmt) (r : Run) :
+    ∃ k, (execAll ct fault r l).1.trace = r.trace ++ l.take k := by
+  cases l with
+  | nil => exact ⟨0, by simp [execAll]⟩
+  | cons s rest =>
+    obtain ⟨k, hk⟩ := execAll_cons_trace (ct := ct) (fault := fault) rest r s
+    exact ⟨k + 1, by rw [hk]; simp⟩
+
+theorem execAll_none_trace {ct : ConvTable} {fault : Option Nat} (l : List Stmt) : ∀ (r r' : Run),
+    execAll ct fault r l = (r', none) → r'.trace = r.trace ++ l := by
+  induction l with
+  | nil => intro r r' h; simp [execAll] at h; simp [h]
+  | cons s rest ih =>
+    intro r r' h
+    simp only [execAll] at h
+    split at h
+    · cases h
+    · rename_i ra heq
+      have ht : ra.trace = r.trace ++ [s] := by
+        have := step_trace ct fault r s; rw [heq] at this; exact this
+      rw [ih ra r' h, ht]; simp
+
 end Lemmas.Batch
